@@ -2,7 +2,14 @@
 package props
 
 import (
+	"os"
+
+	"github.com/markkurossi/mpc/circuit"
+	"github.com/markkurossi/mpc/compiler"
+	"github.com/markkurossi/mpc/compiler/utils"
 	"github.com/markkurossi/mpc/types"
+
+	"verifharness/internal/vrt"
 )
 
 func uintT(bits int) types.Info {
@@ -11,4 +18,20 @@ func uintT(bits int) types.Info {
 
 func intT(bits int) types.Info {
 	return types.Info{Type: types.TInt, IsConcrete: true, Bits: types.Size(bits), MinBits: types.Size(bits)}
+}
+
+func init() {
+	// the compiler resolves the MPCL library from $MPCLDIR/pkg
+	os.Setenv("MPCLDIR", "/repo")
+}
+
+// compileMPCL compiles source with params (nil = defaults) and input sizes.
+func compileMPCL(src string, params *utils.Params, sizes [][]int) (c *circuit.Circuit, err error, pan *vrt.PanicInfo) {
+	if params == nil {
+		params = utils.NewParams()
+	}
+	pan = vrt.Guard(func() {
+		c, _, err = compiler.New(params).Compile(src, sizes)
+	})
+	return
 }
